@@ -21,7 +21,6 @@ from vlib.framework import canon
 from . import c04, c04grid
 
 PROPS = ["MxlVerif.Props.C14"]
-FINDING_STEADY = "F-C14-2"
 F = Fraction
 
 
@@ -196,7 +195,7 @@ def judge_one(ctx, case, real, drv):
         if canon(R) != canon(M):
             ctx.add_drift(case, R, M, "illegal protocol: model and code disagree")
         return "ok"
-    return ctx.judge(case, R, S, M, finding=None if okhist else FINDING_STEADY,
+    return ctx.judge(case, R, S, M, finding=None,
                      what="protocol history: outcome / index / raw_parameters / states")
 
 
@@ -205,9 +204,7 @@ def is_violation(ctx, c):
     if drv is None:
         return bool(py_oracle(c, real))
     R, M, S, okhist = c04.assemble(c, real, drv)
-    if not legal(c) or canon(R) == canon(S):
-        return False
-    return not (not okhist and FINDING_STEADY in ctx.known and canon(R) == canon(M))
+    return legal(c) and canon(R) != canon(S)
 
 
 def shrink(ctx, case):
@@ -317,6 +314,9 @@ def py_oracle(case, real):
 
 # ----------------------------------------------------------------------------- entry points
 def setup(ctx):
+    from translate import c04 as tr
+
+    ctx.translate(tr.generate)
     ctx.build(PROPS)
     ctx.rule = (
         "histories ending in (or containing) simulate_protocol / simulate_protocol_time_course calls: protocols of 1-5 steps "
